@@ -411,6 +411,9 @@ impl Prop for C01 {
 			}
 			Case { ty, input: Input::from_bytes(b), src: Src::RandomBytes }
 		});
+		let invisible = (ty_strategy(), select(vec!["\u{feff}", "\u{200b}", "\u{2060}", " ", "\t", "\n", "\u{0}"]), any::<bool>()).prop_flat_map(|(ty, z, front)| {
+			structural(ty).prop_map(move |s| Case { ty, input: Input::Text(if front { format!("{z}{s}") } else { format!("{s}{z}") }), src: Src::StructuralMutant })
+		});
 		prop_oneof![
 			30 => derive_s,
 			20 => derive_mut,
@@ -419,6 +422,7 @@ impl Prop for C01 {
 			10 => random,
 			6 => random_bytes,
 			6 => spliced,
+			2 => invisible,
 		]
 		.boxed()
 	}
